@@ -54,7 +54,7 @@ class Concretizer:
     def val(self, t):
         t = self.ev(t)
         d = t.decl()
-        if d.eq(V.VNone): return None
+        if d.name() == 'VNone': return None
         if d.eq(V.VBool): return is_true(t.arg(0))
         if d.eq(V.VInt):
             v = t.arg(0).as_long()
@@ -65,7 +65,7 @@ class Concretizer:
             return float(fractions.Fraction(a.numerator_as_long(), a.denominator_as_long()))
         if d.eq(V.VStr): return t.arg(0).as_string()
         if d.eq(V.VBytes): return self.bytes_(t.arg(0))
-        if d.eq(V.VNil): return ()
+        if d.name() == 'VNil': return ()
         if d.eq(V.VCons):
             items = []
             while t.decl().eq(V.VCons):
